@@ -138,7 +138,12 @@ class C06(Check):
             'satisfied, + undocumented-type ones) with flags on; the full '
             'option product (192) x {no file, CSV, parquet} x {absent, stale '
             'file} on selected frames; two constraints on one or two fields '
-            'incl. missing field and type failure; BFS over histories '
+            'incl. missing field and type failure; the FORM of the path '
+            'arguments (outpath, constraints file: str, relative str, '
+            'pathlib.Path, pure path, os.PathLike; output_fields list / '
+            'tuple) x full option product x {CSV, parquet}, and outpath form '
+            'x constraints form x sink x stale - judged by the model and '
+            'against the plain-str run; BFS over histories '
             '(failing / other failing / clean detection x CSV / parquet path, '
             'from absent or stale files).  non-trivial = some constraint '
             'failed and record flags or counts were compared with the model')
@@ -338,13 +343,9 @@ class C06(Check):
         in that form).  self.last keeps what was returned and written, for
         differential comparison between forms."""
         self.last = {'frame': None, 'file': None, 'exists': None}
-        # file clauses name the outpath form, an exception both forms
-        formsig = ''
-        if path_form not in (None, 'str'):
-            formsig += ':outpath=' + path_form
-        excsig = formsig
-        if cons_form not in (None, 'str'):
-            excsig += ':constraints=' + cons_form
+        # (signatures of the clauses below do not name the forms: a defect
+        # that needs a particular form is named by the differential clause
+        # of the 'forms' layer, one that does not is the same in every form)
         pd = self.pd
         pycols = dict((n, A.py_column(c)) for c, n in zip(cols, names))
         fams = dict((n, c['fam']) for c, n in zip(cols, names))
@@ -429,9 +430,8 @@ class C06(Check):
                 return None
             who = 'detect' if ds == 'exc' else 'verify-only'
             e = dv if ds == 'exc' else vv
-            R.viol('%s-raises:%s:%s%s' % (who, type(e).__name__,
-                                          self.exc_disc(e, opts, sink),
-                                          excsig),
+            R.viol('%s-raises:%s:%s' % (who, type(e).__name__,
+                                        self.exc_disc(e, opts, sink)),
                    'detection-agrees-with-verification-no-raise',
                    dict(detail, exception=repr(e)[:300]), sub)
             return None
@@ -535,8 +535,8 @@ class C06(Check):
                 R.checked += 1
                 self.last['exists'] = os.path.exists(path)
                 if os.path.exists(path):
-                    R.viol('file-after-clean-run:%s:%s%s'
-                           % (sink, 'stale' if stale else 'fresh', formsig),
+                    R.viol('file-after-clean-run:%s:%s'
+                           % (sink, 'stale' if stale else 'fresh'),
                            'output-file-only-if-some-constraint-failed',
                            dict(detail, content=self.peek(path)), sub)
             self.check_input(R, df, pre, opts, None, detail, sub, famsig)
@@ -579,13 +579,13 @@ class C06(Check):
             self.last['exists'] = os.path.exists(path)
             if not os.path.exists(path):
                 if nfail > 0 or opts['write_all']:
-                    R.viol('no-file-after-failing-run:%s%s' % (sink, formsig),
+                    R.viol('no-file-after-failing-run:%s' % sink,
                            'output-file-holds-failing-records', detail, sub)
             else:
                 tab = self.read_file(path, sink)
                 if tab is None:
-                    R.viol('unreadable-output:%s:%s%s'
-                           % (sink, 'stale' if stale else 'fresh', formsig),
+                    R.viol('unreadable-output:%s:%s'
+                           % (sink, 'stale' if stale else 'fresh'),
                            'output-file-holds-failing-records',
                            dict(detail, content=self.peek(path)), sub)
                 else:
@@ -994,8 +994,9 @@ class C06(Check):
                 what = ('raises' if got[0] != ref[key][0] else [
                     k for k in ('exists', 'file', 'frame')
                     if got[1][k] != ref[key][1][k]][0])
-                R.viol('path-form-changes-result:%s:%s:%s' % (
-                    arg, sink or 'nofile', what),
+                R.viol('path-form-changes-result:%s:%s' % (
+                    arg, 'raises' if what == 'raises' else
+                    '%s:%s' % (sink or 'nofile', what)),
                     'every-form-of-a-path-names-the-same-file',
                     {'frame': dict((n, c) for c, n in zip(fr['cols'],
                                                           fr['names'])),
